@@ -3,7 +3,7 @@ From Coq Require Import List Arith ZArith Bool Lia.
 Import ListNotations.
 From Acts.Gen Require Import GenState.
 From Acts.Model Require Import Engine Oracles.
-From Acts.Proofs Require Import EngineBasics C02Core C05Proofs.
+From Acts.Proofs Require Import EngineBasics TimeoutInv C02Core C05Proofs.
 Global Arguments emit : simpl never.
 Global Arguments emit_error : simpl never.
 Global Arguments next : simpl never.
@@ -44,6 +44,20 @@ Proof.
     apply In_insert_by in Ha as [-> | Ha]; auto. }
   intros Hy. destruct (H l [] Hy) as [[] | Hl]; exact Hl.
 Qed.
+(* one firing keeps J *)
+Lemma fire_J e t r : J e -> t < ntasks e ->
+  rule_fires (clock e) (t_start (tk e t)) (t_tmo_done (tk e t)) (is_completed (st e t)) r = true -> G e (fire e t r).
+Proof.
+  intros ((HP & HQ & HW & HT) & HX & HQR) Ht Hr. split; [|unfold fire, add_tmo_done; rewrite ntasks_tmod; unfold ntasks; simpl; lia].
+  split; [split; [|split; [|split]]|split].
+  - unfold P, fire, add_tmo_done. cbn [trace tmod with_tasks add_ev with_trace]. rewrite forallb_app, HP. reflexivity.
+  - intros x Hx. unfold fire, add_tmo_done, st in *. rewrite tk_tmod in *. cbn [tasks add_ev with_trace] in *.
+    destruct (Nat.eqb x t && Nat.ltb t (length (tasks e))); [|now apply HQ]. simpl in *. now apply HQ.
+  - unfold fire. apply W_tmod; auto.
+  - now apply T_fire.
+  - exact HX.
+  - intros j Hj. unfold fire, add_tmo_done. rewrite ntasks_tmod. now apply HQR.
+Qed.
 Lemma do_tick_J e adv : J e -> G e (do_tick e adv).
 Proof.
   intros HJ. unfold do_tick.
@@ -53,10 +67,12 @@ Proof.
   apply (G_fold _ _ (fun t => t < ntasks e0)); [| |exact G0].
   - intros ee t Ht Gee.
     apply (G_fold _ _ (fun _ => True)); [|auto|exact Gee].
-    intros ee2 r _ Gee2. destruct (rule_fires _ _ _ _ _); [|exact Gee2].
-    eapply G_trans; [exact Gee2|]. apply G_xext; [apply Gee2|].
-    eapply xext_trans; [apply xext_add_tmo_done|]. apply xext_sched_nodes.
-    unfold add_tmo_done. rewrite ntasks_tmod. destruct Gee2 as [_ L]. assert (E0 : ntasks e0 = ntasks e) by reflexivity. lia.
+    intros ee2 r _ Gee2. destruct (rule_fires _ _ _ _ _) eqn:Er; [|exact Gee2].
+    fold (fire ee2 t r).
+    assert (Rt : t < ntasks ee2) by (destruct Gee2 as [_ L]; assert (E0 : ntasks e0 = ntasks e) by reflexivity; lia).
+    assert (Gf : G ee2 (fire ee2 t r)) by (apply fire_J; [apply Gee2 | exact Rt | exact Er]).
+    eapply G_trans; [exact Gee2|]. eapply G_trans; [exact Gf|]. apply G_xext; [apply Gf|]. apply xext_sched_nodes.
+    destruct Gf; lia.
   - intros t Ht. apply In_sort_by in Ht. apply filter_In in Ht as [Ht _]. apply in_seq in Ht. unfold e0 in Ht. cbn [tasks with_clock] in Ht. unfold e0, ntasks. cbn [tasks with_clock]. lia.
 Qed.
 
@@ -108,7 +124,7 @@ Proof.
         eapply G_trans; [exact Gee|]. eapply G_trans; [exact Gs|]. apply mainE; [apply Gs | destruct Gee, Gs; lia].
     - intros c Hc. eapply children_lt; eauto. }
   eapply G_trans; [exact G1|]. eapply G_trans; [exact G2|]. apply IH; [apply G2|].
-  intros q Hq. destruct G2 as [((_ & _ & HW) & _) L2]. destruct G1 as [_ L1].
+  intros q Hq. destruct G2 as [((_ & _ & HW & _) & _) L2]. destruct G1 as [_ L1].
   apply parent_lt in Hq; auto; lia.
 Qed.
 Lemma abort_sweep_J e skip : J e -> G e (abort_sweep e skip).
@@ -132,6 +148,8 @@ Proof.
     apply is_eq in EP. assert (Gs : G ee (set_state 36 ee p SSkipped)) by (apply G_set_state; [apply Gee | rewrite EP; reflexivity]).
     eapply G_trans; [exact Gee|]. eapply G_trans; [exact Gs|]. apply mainE; [apply Gs | destruct Gee, Gs; lia].
 Qed.
+
+Lemma G_W e e' : G e e' -> W e'. Proof. intros [((_ & _ & HW & _) & _) _]. exact HW. Qed.
 
 (* ---- structure needed by error, back and cancel ---- *)
 Lemma children_prev e i j : In j (children e i) -> t_prev (tk e j) = Some i.
@@ -238,21 +256,20 @@ Proof.
       intros x Hx. apply in_app_or in Hx as [Hx | Hx].
       + destruct (Hnx x Hx). split; [assumption|]. destruct Gs, Ge; lia.
       + split; [|eapply children_lt; eauto].
-        assert (t < x) by (eapply children_gt; eauto; apply Ge). lia. }
+        assert (t < x) by (apply (children_gt _ _ _ (G_W _ _ Ge) Hx)). lia. }
   destruct (Hfold l (e, []) Hl (G_refl e HJ) eq_refl ltac:(intros x [])) as (Gf & Sf & Nf).
   destruct (fold_left gg l (e, [])) as [e' nexts] eqn:Ef. cbn [fst snd] in *.
   destruct (IH e' nexts (proj1 Gf) Nf) as [Gr Sr].
   split; [eapply G_trans; eauto | congruence].
 Qed.
 
-Lemma G_W e e' : G e e' -> W e'. Proof. intros [((_ & _ & HW) & _) _]. exact HW. Qed.
 Lemma ret_J e e' : G e e' -> forall b, G e (add_ev e' (EAct b)).
 Proof. intros Gee b. eapply G_trans; [exact Gee|]. apply G_xext; [apply Gee | now apply xext_add_ev]. Qed.
 
 (* Task::update for an admitted action *)
 Lemma perform_J e i a cv : J e -> i < ntasks e -> (is_cancel a = false -> is_completed (st e i) = false) -> G e (perform e i a cv).
 Proof.
-  intros HJ Hi Hopen. pose proof HJ as ((_ & _ & HW) & _).
+  intros HJ Hi Hopen. pose proof HJ as ((_ & _ & HW & _) & _).
   assert (Hnext : forall site s, is_completed s = true -> is_completed (st e i) = false -> G e (next (fuel_of e) cv (set_state site e i s) i)).
   { intros site s Hs Ho.
     assert (Gs : G e (set_state site e i s)) by (apply G_set_state; auto; rewrite legal_to_terminal; auto).
@@ -286,7 +303,7 @@ Proof.
     assert (G3 : G e2 e3) by (apply abort_sweep_J, G2).
     eapply G_trans; [exact G1|]. eapply G_trans; [exact G2|]. eapply G_trans; [exact G3|].
     apply abort_up_J; [apply G3|]. intros q Hq.
-    destruct G3 as [((_ & _ & HW3) & _) L3]. apply parent_lt in Hq; auto; destruct G1, G2; lia.
+    destruct G3 as [((_ & _ & HW3 & _) & _) L3]. apply parent_lt in Hq; auto; destruct G1, G2; lia.
   - (* error *)
     destruct code as [c|]; [|apply ret_J; now apply G_refl].
     specialize (Hopen eq_refl).
@@ -320,7 +337,7 @@ Proof.
     { unfold e3. destruct (climb_to _ _ _ _) as [p|] eqn:Ec; [|apply G_refl, G2].
       destruct (is_completed (st e2 p)) eqn:Ecp; [apply G_refl, G2|].
       assert (Rp : p < ntasks e2).
-      { destruct G2 as [((_ & _ & HW2) & _) L2]. eapply climb_to_lt; [exact HW2 | | exact Ec].
+      { destruct G2 as [((_ & _ & HW2 & _) & _) L2]. eapply climb_to_lt; [exact HW2 | | exact Ec].
         intros q Hq. apply parent_lt in Hq; auto; destruct G1; lia. }
       assert (Gp : G e2 (set_state 35 e2 p SBacked)) by (apply G_set_state; [apply G2 | rewrite legal_to_terminal; auto]).
       eapply G_trans; [exact Gp|]. apply mainE; [apply Gp | destruct Gp; lia]. }
@@ -394,10 +411,11 @@ Qed.
 
 Lemma start_J ns c0 : J (start ns c0).
 Proof.
-  split; [split; [|split]|split].
+  split; [split; [|split; [|split]]|split].
   - reflexivity.
   - intros t Ht. unfold start, tk in Ht; cbn in Ht. destruct t as [|[|t]]; cbn in Ht; congruence.
   - intros t Ht. unfold ntasks, start in Ht; cbn in Ht. assert (t = 0) by lia. subst. cbn. exact I.
+  - split; [reflexivity | split; [constructor | intros t on []]].
   - reflexivity.
   - intros i [<- | []]. unfold ntasks, start; cbn. lia.
 Qed.
